@@ -6,8 +6,11 @@ Two halves at model level. (1) The byte-level machines of the two packages deliv
 (`OjgVerif.C01.oj_eq_gen`, over the regenerated tables); a document `v : JV` is what `oj.Parser`
 builds in the simple form (`ofJV .simple v`) and what `gen.Parser` builds in the generic form
 (`ofJV .gen v`). (2) `Generify` turns any heap representation of `ofJV .simple v` into a
-representation of `ofJV .gen v`, provided the document holds no number kept as text (for those see
-the known finding C18-generify-number). The tie of both halves to the Go parsers is the
+representation of `ofJV .gen v`, provided the document holds no number kept as text. Such numbers
+are outside the domain of the conversion theorems (`T.pure` excludes them: `Big.Simplify` gives a plain
+string, so they do not round-trip); since the repository commit "Generify and GenAlter convert a
+json.Number to gen.Big" the model's `scalar` maps them to `big gen` (`generifyBigCase = true`) and the
+parser clause of the run covers them. The tie of both halves to the Go parsers is the
 correspondence run of the `json` family and the parser clause of the `conv` harness. -/
 namespace OjgVerif.C18
 open OjgVerif OjgVerif.Conv OjgVerif.Json
